@@ -390,7 +390,7 @@ def run(run):
                        'early ignores are generated only for packets whose '
                        'reaction may be skipped without breaking the session']
     rng = run.rng('c13')
-    n = 1200 if thorough else 160
+    n = 5000 if thorough else 320
     for i in range(n):
         if not run.mine(i):
             continue
